@@ -1763,3 +1763,9 @@ package ice
 //@   at call:encoding/binary.Uvarint#0 lemma[C06,C10] arr(metaLenData) == arr(uncompressed) && off(metaLenData) == off(uncompressed) + storedOffset
 //@   at call:encoding/binary.Uvarint#1 lemma[C06,C10] arr(dataLenData) == arr(uncompressed) && off(dataLenData) == off(uncompressed) + storedOffset + gn0
 //@   ensures[C06,C10] @header_is_meta_length_then_data_length err == nil ==> metaLen == gh0 && dataLen == gh1 && n == gn0 + gn1
+//@
+//@ // ---- C10/C01: the int-coder stream header: the number of chunks (= entries of the coder's
+//@ // chunk table) as a uvarint, then one end offset per chunk ----
+//@ func (*chunkedIntCoder).Write
+//@   at call:encoding/binary.PutUvarint#0 lemma[C01,C10] len(chunkOffsets) == len(c.chunkLens) && arr(chunkOffsets) == arr(c.chunkLens) && off(chunkOffsets) == off(c.chunkLens)
+//@   at call:encoding/binary.PutUvarint#0 lemma[C01,C10] uvval(contents(buf), off(buf), len(buf)) == len(c.chunkLens) && result0 >= 1
